@@ -190,17 +190,36 @@ func TestVerifC01EndToEnd(t *testing.T) {
 				}
 				return h.tcpA
 			}
-			for _, misdirected := range []bool{false, true} {
+			for _, mode := range []string{"truthful", "misdirected", "warm-misdirected"} {
+				misdirected := mode != "truthful"
 				D, err := vfC01NewHost("D", td, security, false)
 				if err != nil {
 					t.Fatal(err)
+				}
+				if mode == "warm-misdirected" {
+					// warm history: the same dialer first reaches the real P (and Q, so that whatever it remembers
+					// about either is in place), closes the connections, and is then told that P lives where Q listens
+					for _, h := range []*vfC01Host{P, Q} {
+						D.ps.AddAddr(h.id, addrOf(h), peerstore.PermanentAddrTTL)
+						ctx, cancel := context.WithTimeout(context.Background(), 20*time.Second)
+						c, werr := D.sw.DialPeer(ctx, h.id)
+						cancel()
+						if werr != nil || c.RemotePeer() != h.id {
+							res.AddMismatch(vfh.Mismatch{Class: "L2:truthful-dial-failed", What: fmt.Sprintf("warm-up dial over %s/%s failed: %v", cb.tpt, cb.security, werr), Walk: -1})
+						}
+						D.sw.ClosePeer(h.id)
+						D.ps.ClearAddrs(h.id)
+					}
+					D.mu.Lock()
+					D.seen = nil
+					D.mu.Unlock()
 				}
 				target := addrOf(P)
 				if misdirected {
 					target = addrOf(Q) // the dialer is told that P lives where Q listens
 				}
 				D.ps.AddAddr(P.id, target, peerstore.PermanentAddrTTL)
-				cfg := map[string]any{"transport": cb.tpt, "security": cb.security, "keys": tp + "/" + tq + "/" + td, "misdirected": misdirected, "seed": seed}
+				cfg := map[string]any{"transport": cb.tpt, "security": cb.security, "keys": tp + "/" + tq + "/" + td, "mode": mode, "seed": seed}
 				mm := func(class, what string, exp, got any) {
 					res.AddMismatch(vfh.Mismatch{Class: class, What: what, Walk: -1, Expected: exp, Got: got, Cfg: cfg})
 				}
